@@ -256,8 +256,23 @@ def run_family(out, fam_name, cfgs, tier, limit_ms=20000, after_read=False, only
                     f["count"] += 1
                     if len(p[1]) < len(f["case"]):
                         f.update(case=p[1], msg=msg, pid=p[0])
+        if hasattr(fam, "judge_all"):
+            for key, case, msg in fam.judge_all(progs, res):
+                if only_keys_prefix and not key.startswith(only_keys_prefix):
+                    continue
+                f = found.setdefault(key, {"key": key, "case": case, "msg": msg, "count": 0, "pid": None})
+                f["count"] += 1
+                if len(case) < len(f["case"]):
+                    f.update(case=case, msg=msg)
         # replay before report
         for key, f in found.items():
+            if f["pid"] is None:  # class-level finding: re-run the whole family once more and require the same key
+                res2 = riddle.run_programs(cfg, [(p[0], p[1]) for p in progs], after_read=after_read, limit_ms=limit_ms, tag=fam_name + "r")
+                if key not in [k for k, _, _ in fam.judge_all(progs, res2)]:
+                    out.harness_errors.append("class-level finding %s did not reproduce on a second run" % key)
+                    continue
+                out.findings.append({"key": key, "case": f["case"], "msg": f["msg"], "count": f["count"], "engine": "progrun:" + fam_name, "cfg": cfg})
+                continue
             ok = 0
             for _ in range(2):
                 r2 = riddle.run_programs(cfg, [(f["pid"], f["case"])], after_read=after_read, limit_ms=limit_ms * 3, tag=fam_name + "r")
@@ -278,6 +293,60 @@ def run_family(out, fam_name, cfgs, tier, limit_ms=20000, after_read=False, only
 
 SOLVER_CFGS_QUICK = ["rel", "dbg-hadd-ci"]
 SOLVER_CFGS_ALL = ["rel", "rel-hadd", "rel-ci", "rel-hadd-ci", "dbg", "dbg-hadd", "dbg-ci", "dbg-hadd-ci"]
+
+
+def fam_coverage(stats_list, rule, extra=None):
+    progs = sum(s["programs"] for s in stats_list)
+    runs = sum(s["runs"] for s in stats_list)
+    samples = []
+    for s in stats_list:
+        samples += s["samples"][:3]
+    cov = {"evaluations": runs, "distinct_nontrivial": progs, "rule": rule, "samples": samples, "exhaustive": True,
+           "families": {s["name"]: {k: s[k] for k in ("programs", "runs", "verdicts", "per_cfg")} for s in stats_list}}
+    if extra:
+        cov.update(extra)
+    return cov
+
+
+def named(st, name):
+    st["name"] = name
+    return st
+
+
+def c01(tier):
+    out = Outcome("C01", tier, "exploration")
+    cfgs = SOLVER_CFGS_QUICK if tier == "quick" else SOLVER_CFGS_ALL
+    sts = [named(run_family(out, "fam_cn", cfgs, tier, limit_ms=10000, only_keys_prefix="C01"), "constraint-networks")]
+    out.coverage = fam_coverage(sts,
+        "F1 constraint networks (lib/fam_cn.py): `real x; real y; bool p;` + EVERY subset of <=3 statements of a pool of 33 (thorough 39): "
+        "relations between linear expressions (strict, non-strict, ==, !=), boolean combinations (| -> ^ ! == & under and outside "
+        "negation) and `{..} or {..}` disjunction statements with/without costs. Every program is solved by the real solver in 2 "
+        "(thorough: all 8) configurations of {h_max,h_add} x {CHECK_INCONSISTENCIES off,on} x {Release, Debug+ASan}; when it reports a "
+        "solution, every statement is re-evaluated on the reported values with exact (rational, eps) arithmetic and three-valued "
+        "logic (unknown = not satisfied); for a disjunction statement some disjunct must hold entirely. distinct_nontrivial = number "
+        "of distinct programs (all distinct by construction). Further families (rules, timelines, objects) are judged by C03-C06/C17.")
+    out.assumptions = ["the exact evaluator of lib/riddle.py implements the reference semantics of DESIGN.md appendix A",
+                       "timeouts (10 s) are undecided, not verdicts"]
+    return out.finish()
+
+
+def c02(tier):
+    out = Outcome("C02", tier, "exploration")
+    cfgs = SOLVER_CFGS_QUICK if tier == "quick" else SOLVER_CFGS_ALL
+    sts = [named(run_family(out, "fam_cn", cfgs, tier, limit_ms=10000, only_keys_prefix="C02"), "ground-truth"),
+           named(run_family(out, "fam_eqv", cfgs[:2] if tier == "quick" else cfgs, tier, limit_ms=10000, only_keys_prefix="C02"), "equivalence-classes")]
+    out.coverage = fam_coverage(sts,
+        "(a) ground truth: every constraint-network program of lib/fam_cn.py (all subsets of <=3 statements of the pool): when the "
+        "solver answers 'unsolvable' (solve() false) or 'inconsistent' (error while reading) an independent complete procedure - "
+        "enumeration of the truth assignments of the atomic relations and booleans that satisfy the boolean structure, each checked "
+        "by Fourier-Motzkin with strictness and disequality splitting - must find no model. (c) equivalence classes (lib/fam_eqv.py): "
+        "for base programs of 2-3 statements, ALL permutations, an alpha-renaming of every identifier and each of three tautologies "
+        "inserted at each position; verdicts within a class must agree. All in 2 (thorough 8) build configurations. The network-level "
+        "half (learnt no-goods are implied) is decided by C07/C09/C10. Planted-solution families for rules/timelines are part of "
+        "C03-C06's generators (a planted problem reported unsolvable is flagged there under a C02 key).")
+    out.assumptions = ["the reference decision procedure (lib/fam_cn.py: has_model) is complete for the two-variable linear fragment generated",
+                       "timeouts are undecided"]
+    return out.finish()
 
 
 def c16(tier):
@@ -344,15 +413,17 @@ def c18(tier):
 
 
 # ------------------------------------------------------------------------------------------------
-PROPS = {"C16": c16, "C18": c18, "C15": c15, "C13": c13, "C11": lambda tier: relmc_check("C11", tier), "C12": lambda tier: relmc_check("C12", tier)}
+PROPS = {"C01": c01, "C02": c02, "C16": c16, "C18": c18, "C15": c15, "C13": c13, "C11": lambda tier: relmc_check("C11", tier), "C12": lambda tier: relmc_check("C12", tier)}
 for _p in ("C07", "C08", "C09", "C10", "C14"):
     PROPS[_p] = (lambda pid: (lambda tier: netmc_check(pid, tier)))(_p)
 
 
 def setup():
     t0 = time.time()
-    for cfg in ["rel", "dbgn", "dbg"]:
+    for cfg in ["rel", "dbgn", "dbg", "dbg-hadd-ci"]:
         vbuild.ensure_tree(cfg, quiet=False)
+    for cfg in ["rel", "dbg-hadd-ci"]:
+        vbuild.ensure_harness(cfg, "progrun", quiet=False)
     for cfg, h in [("rel", "arith_enum"), ("dbgn", "arith_enum"), ("dbg", "arith_enum"), ("rel", "reify"), ("dbgn", "reify"), ("rel", "netmc"), ("dbgn", "netmc"), ("rel", "relmc"), ("dbgn", "relmc"), ("rel", "lexmc"), ("dbgn", "lexmc"), ("dbg", "lexmc")]:
         vbuild.ensure_harness(cfg, h, quiet=False)
     print("setup done in %.0fs" % (time.time() - t0))
